@@ -13,9 +13,10 @@
     * `whitespace.classify` turns every token that contains a tab but no space into a
       `parser.whitespace` (also a string literal `"<tab>"`); a token of other white space
       (form feed, U+00A0 …) stays a `parser.item`
-    * `comment.classify` indexes `lObjects[iToken - 1]`; at `iToken = 0` Python's negative index
-      reads and OVERWRITES THE LAST token of the line (`ending_token_should_exist`,
-      `remove_last_star_from_previous_token`)
+    * `comment.classify` indexes `lObjects[iToken - 1]` (`ending_token_should_exist`,
+      `remove_last_star_from_previous_token`); since /repo c5cb15b the test is guarded by
+      `iToken > 0` (before, Python's negative index read and overwrote the LAST token of the line
+      at `iToken = 0`); the subscript itself is still modelled with Python's semantics (`prevIdx`)
     * `merge_text_tokens` merges everything between the first and the last text token of a line,
       delimiters included
     * `preprocessor.classify` collapses the line after `comment.classify` has already updated the
@@ -177,8 +178,9 @@ def closeStep (i : Nat) (v : Str) (s : CState) : Option CState :=
   if s.inside && v == starSlash then
     -- ending_token_exists
     some ⟨s.objs.set i ⟨.dcEnd, v⟩, false⟩
-  else if s.inside && v == slash then
-    -- ending_token_should_exist: lObjects[iToken - 1].get_value().endswith("*")
+  else if s.inside && decide (i > 0) && v == slash then
+    -- ending_token_should_exist: inside and iToken > 0 and value == "/" and
+    -- lObjects[iToken - 1].get_value().endswith("*")
     let j := prevIdx i s.objs.length
     match s.objs[j]? with
     | none => none
@@ -389,28 +391,5 @@ inductive Refines : List LTok → List Tok → Prop
 def ValuePreservingOn (inp : List LTok) (out : List Tok) : Prop := Refines inp out
 
 def ValuePreserving (classify : List LTok → List Tok) : Prop := ∀ l, ValuePreservingOn l (classify l)
-
-/-- the input on which `comment.classify` is not lossless: the line is read inside a delimited
-    comment, its first token is `/` and its last token ends with `*` -/
-def SlashStarLine (T : LexTables) (st : LState) (raw : Str) : Prop :=
-  st.inside = true ∧ (create T (stripNlCr raw)).head? = some slash ∧
-    ∃ l, (create T (stripNlCr raw)).getLast? = some l ∧ l.getLast? = some '*'
-
-instance (T : LexTables) (st : LState) (raw : Str) : Decidable (SlashStarLine T st raw) := by
-  unfold SlashStarLine
-  cases h : (create T (stripNlCr raw)).getLast? with
-  | none => exact isFalse (by rintro ⟨_, _, l, hl, _⟩; cases hl)
-  | some l =>
-    exact decidable_of_iff (st.inside = true ∧ (create T (stripNlCr raw)).head? = some slash ∧ l.getLast? = some '*')
-      ⟨fun ⟨a, b, c⟩ => ⟨a, b, l, rfl, c⟩, fun ⟨a, b, l', hl', c⟩ => ⟨a, b, by cases hl'; exact c⟩⟩
-
-/-- no line of the file is such a line in the state in which it is read -/
-def LinesOk (T : LexTables) (rx : Str → PragmaRx) : LState → List Str → Prop
-  | _, [] => True
-  | st, l :: ls =>
-    ¬ SlashStarLine T st l ∧
-      match classifyLine T (rx l) st l with
-      | none => True
-      | some (_, st') => LinesOk T rx st' ls
 
 end Vsgm.Lex
